@@ -27,11 +27,12 @@ ASSUMPTIONS = [
 NT_FLOOR = 0.3
 
 TARGETS = {
-    "int": [11, 12, 13, 14, 15, 16, 17, 18, 19],
-    "str": ["p", "q", "pq", "Q", "r s", "t", "u", "v", "w"],
-    "float": [10.5, 11.25, 12.0, 13.75, 14.5, 15.125, 16.0, 17.5, 18.25],
+    "int": [11, 12, 13, 14, 15, 16, 17, 18, 19, 20, 21, 22, 23, 24, 25],
+    "str": ["p", "q", "pq", "Q", "r s", "t", "u", "v", "w", "nan", "Infinity", "-inf", "NaN", "None", "True"],
+    "float": [10.5, 11.25, 12.0, 13.75, 14.5, 15.125, 16.0, 17.5, 18.25, 19.5, 20.25, 21.0, 22.75, 23.5, 24.125],
     # distinct labels that are equal under any tolerance (price points, results of arithmetic, tiny values)
-    "float_close": [2499.99, 2500.0, 2500.01, 0.3, 0.1 + 0.2, 1e-9, 2e-9, 1.0, 1.0000001],
+    "float_close": [2499.99, 2500.0, 2500.01, 0.3, 0.1 + 0.2, 1e-9, 2e-9, 1.0, 1.0000001, 7.0, 7.0000001, 1e9, 1e9 + 1,
+                    5e-324, 0.7],
 }
 
 
